@@ -327,7 +327,55 @@ def canonical_branches(tree: ast.AST) -> ast.AST:
             return node
         visit_While = visit_For
         visit_AsyncFor = visit_For
-    return ast.fix_missing_locations(_Guards().visit(tree))
+    tree = _Guards().visit(tree)
+
+    # `x = self.a.b` at the top of a function, x never assigned again and no `.b` stored in the function: x IS self.a.b.  The alias is
+    # written out, so that a method reads the same whether or not its operands were first put into locals.
+    def pure_self_chain(e: ast.AST) -> bool:
+        while isinstance(e, ast.Attribute):
+            e = e.value
+        return isinstance(e, ast.Name) and e.id == "self"
+
+    import copy as _copy
+
+    class _Inline(ast.NodeTransformer):
+        def __init__(self, m):
+            self.m = m
+
+        def visit_Name(self, n):
+            if isinstance(n.ctx, ast.Load) and n.id in self.m:
+                return ast.copy_location(_copy.deepcopy(self.m[n.id]), n)
+            return n
+
+    for fn in [x for x in ast.walk(tree) if isinstance(x, (ast.FunctionDef, ast.AsyncFunctionDef))]:
+        params = {a.arg for a in fn.args.args + fn.args.kwonlyargs + fn.args.posonlyargs}
+        if "self" not in params:
+            continue
+        stored_attrs = {x.attr for x in ast.walk(fn) if isinstance(x, ast.Attribute) and not isinstance(x.ctx, ast.Load)}
+        store_counts: Dict[str, int] = {}
+        for x in ast.walk(fn):
+            if isinstance(x, ast.Name) and not isinstance(x.ctx, ast.Load):
+                store_counts[x.id] = store_counts.get(x.id, 0) + 1
+            if isinstance(x, (ast.Global, ast.Nonlocal)):
+                for nm in x.names:
+                    store_counts[nm] = 99
+        m = {}
+        keep = []
+        k = 1 if fn.body and isinstance(fn.body[0], ast.Expr) and isinstance(fn.body[0].value, ast.Constant) and isinstance(fn.body[0].value.value, str) else 0
+        leading = True
+        for i, st in enumerate(fn.body):
+            if i >= k and leading and isinstance(st, ast.Assign) and len(st.targets) == 1 and isinstance(st.targets[0], ast.Name) \
+                    and isinstance(st.value, ast.Attribute) and pure_self_chain(st.value) and st.targets[0].id not in params \
+                    and store_counts.get(st.targets[0].id, 0) == 1 and st.value.attr not in stored_attrs \
+                    and not any(isinstance(x, ast.Attribute) and x.attr in stored_attrs for x in ast.walk(st.value)):
+                m[st.targets[0].id] = st.value
+                continue
+            if i >= k and not (isinstance(st, ast.Assign) and isinstance(st.value, ast.Attribute) and pure_self_chain(st.value)):
+                leading = leading and isinstance(st, (ast.Assign, ast.AnnAssign)) and False
+            keep.append(st)
+        if m:
+            fn.body = [_Inline(m).visit(st) for st in keep] or [ast.Pass()]
+    return ast.fix_missing_locations(tree)
 
 
 class ProgramDB:
